@@ -2,7 +2,7 @@
 
 from hypothesis import strategies as st
 
-from tv.designs import gen_spec
+from tv.designs import gen_deep_nesting_spec, gen_spec
 from tv.props import c12
 from tv.props._core_a import run_design, tier_opts
 
@@ -28,7 +28,9 @@ def strategy(tier):
     # one case in five is a condition() block reached through a guarded call chain (C12's generator): its branches
     # are nested transactions, for which this property demands: a condition() branch (a nested transaction) never runs in a cycle where its enclosing body does not run
     cond = c12.strategy(tier).map(lambda sp: {"gen": "condition", "spec": sp})
-    return st.integers(0, 4).flatmap(lambda k: cond if k == 4 else general)
+    # one case in ten: three levels of nested bodies with callers (and conflicts) on every level
+    deep = gen_deep_nesting_spec()
+    return st.integers(0, 9).flatmap(lambda k: cond if k >= 8 else (deep if k == 7 else general))
 
 
 def run_case(case):
